@@ -192,6 +192,30 @@ inline bool hasNonAsciiEncodingAttribute(const std::string& text)
     }
     return false;
 }
+// F-C03-assert-nametest-empty-local: an `elements` attribute (xsl:strip-space / xsl:preserve-space) with a token ending in ':'
+inline bool hasNameTestEndingInColon(const std::string& xsl)
+{
+    size_t pos = 0;
+    while ((pos = xsl.find("elements", pos)) != std::string::npos)
+    {
+        size_t i = pos + 8;
+        pos = i;
+        while (i < xsl.size() && (isspace((unsigned char)xsl[i]) || xsl[i] == '=')) ++i;
+        if (i >= xsl.size() || (xsl[i] != '"' && xsl[i] != '\'')) continue;
+        const char q = xsl[i++];
+        for (; i < xsl.size() && xsl[i] != q; ++i)
+            if (xsl[i] == ':' && (i + 1 >= xsl.size() || xsl[i + 1] == q || isspace((unsigned char)xsl[i + 1]) || xsl[i + 1] == '&')) return true;
+    }
+    return false;
+}
+// F-C03-assert-indtd: a document type declaration with an internal subset that is never closed by "]>"
+inline bool hasUnclosedInternalSubset(const std::string& xml)
+{
+    const size_t d = xml.find("<!DOCTYPE");
+    if (d == std::string::npos) return false;
+    const size_t b = xml.find('[', d);
+    return b != std::string::npos && xml.find("]>", b) == std::string::npos;
+}
 // F-C03-xerces-dom-xmlversion: true when the document starts with an XML declaration whose version is neither 1.0 nor 1.1
 inline bool hasOddXmlVersion(const std::string& xml)
 {
